@@ -885,4 +885,62 @@ Definition eng_minmax_vv (g : cellf) (σ : store) (ta tb : nat) (m : cmode) : st
   | _, _ => (σ, OPanicR)
   end.
 
+(* ---- StdEng.MinBetweenScalar / MaxBetweenScalar (t, s, leftTensor, opts...) with a Go scalar ---- *)
+Definition eng_minmax_scalar (g : cellf) (σ : store) (tt : nat) (s : V) (leftTensor : bool) (m : cmode)
+  : store * oresult :=
+  match get_t σ tt with
+  | None => (σ, OPanicR)
+  | Some t0 =>
+    let hr := match m with
+              | CReuse r => match handle_reuse σ r (shp (d_ap t0)) (ord (d_ap t0)) false with
+                            | Ok σ1 => Ok (σ1, Some r) | Err => Err | Panic => Panic end
+              | CIncr r => match handle_reuse σ r (shp (d_ap t0)) (ord (d_ap t0)) true with
+                            | Ok σ1 => Ok (σ1, Some r) | Err => Err | Panic => Panic end
+              | _ => Ok (σ, None)
+              end in
+    match hr with
+    | Err => (σ, OErrR)
+    | Panic => (σ, OPanicR)
+    | Ok (σ1, ro) =>
+      match get_t σ1 tt with
+      | None => (σ1, OPanicR)
+      | Some t =>
+        let rd0 := match ro with Some r => get_t σ1 r | None => None end in
+        let '(σ2, sh) := scalar_hdr σ1 s in
+        (* prepDataVS / prepDataSV *)
+        let useIter :=
+          if is_scalar (shp (d_ap t)) then false
+          else requires_iterator t
+               || match rd0 with Some r => requires_iterator r | None => false end
+               || match rd0 with Some r => negb (has_same_order (ord (d_ap r)) (ord (d_ap t))) | None => false end in
+        (* "if reuse == nil { reuse = NewDense(...) }" — whatever the mode *)
+        let '(σ3, r, rdn) :=
+          match ro, rd0 with
+          | Some r, Some d => (σ2, r, d)
+          | _, _ => let '(σ', t', d') := new_dense σ2 (shp (d_ap t)) in (σ', t', d')
+          end in
+        let safe := match m with CUnsafe => false | _ => true end in
+        if negb safe then (σ3, OPanicR)                 (* both switches fall to panic("Unreachable") *)
+        else if useIter then
+          match all_iter t, all_iter rdn with
+          | Some ti, Some ri =>
+            match copy_iter_idx σ3 rdn t ri ti with
+            | Some σ4 =>
+              if leftTensor then finish (e_iter g σ4 rdn sh ri []) σ4 r
+              else finish (e_iter g σ4 sh rdn [] ti) σ4 r      (* the TENSOR's iterator walks the reuse tensor *)
+            | None => (σ3, OPanicR)
+            end
+          | _, _ => (σ3, OPanicR)
+          end
+        else
+          match copy_hdr σ3 rdn t with
+          | Some σ4 =>
+            if leftTensor || (d_len t =? 1) then finish (e_plain g σ4 rdn sh) σ4 r
+            else finish (e_plain g σ4 sh rdn) σ4 r
+          | None => (σ3, OPanicR)
+          end
+      end
+    end
+  end.
+
 End Ops.
